@@ -44,47 +44,47 @@ claim("C02",
  "static analysis: guard-dominance bound analysis on multiply-accumulate sites, constant-table comparison against RFC 8259 section 7, per-digit abstract interpretation of the \\u arm, product event synchrony",
  "DESIGN.md §4 C02")
 claim("C12",
- "Static decision of the exact truth table of the filter operators ==, !=, <, <=, >, >=, &&, ||, !, has, exists: each operator arm is evaluated abstractly over kind(left) x kind(right) x order (1000+ cells, exhaustive, with Go's interface-equality rule including the PANIC outcome for uncomparable operands) and compared with the documented semantics; plus operator-table consistency and the mixed-radix enumeration of multi-valued operands. Multi-value expansion semantics, Match vs filter membership, regex and arithmetic are not decided.",
+ "Static decision of the exact truth table of the filter operators ==, !=, <, <=, >, >=, &&, ||, !, has, exists: each operator arm is evaluated abstractly over kind(left) x kind(right) x order (1000+ cells, exhaustive, with Go's interface-equality rule including the PANIC outcome for uncomparable operands) and compared with the documented semantics; plus operator-table consistency and the mixed-radix enumeration of multi-valued operands. Multi-value expansion semantics, Match vs filter membership, regex and arithmetic are not decided. The matrix includes gen.Array and gen.Object operands (uncomparable named types that a `case []any` does not match); M-presence keeps a null member from being read as Nothing.",
  "Trusted: the specification matrix in rules_c12.go written from the property statement; float64(int) assumed order preserving; operands outside the nine kinds are not modelled.",
  "static analysis: finite abstract evaluation of operator arms over an operand-kind matrix",
  "DESIGN.md §4 C12")
 claim("C14",
- "Static decision of structural clauses of the path/script text round trip: every escape jp.AppendString can emit (per byte, per delimiter, 512 cells) is one the path parser's escape reader accepts and decodes to the same byte; Child.Append's dot-form predicate and the parser's dot-token readers consult the same table constant and class code; no dereference of a sibling operand under the other operand's nil guard. Precedence/evaluation equivalence of print and re-parse is not decided.",
+ "Static decision of structural clauses of the path/script text round trip: every escape jp.AppendString can emit (per byte, per delimiter, 512 cells) is one the path parser's escape reader accepts and decodes to the same byte; Child.Append's dot-form predicate and the parser's dot-token readers consult the same table constant and class code; no dereference of a sibling operand under the other operand's nil guard. Precedence/evaluation equivalence of print and re-parse is not decided. P-elide: a number is omitted from the printed slice only under an equality test with its default. P-prec: every comparison of an operator's precedence with its right child's - in the parser's correction and in the printer's parenthesis arguments - is the same relation.",
  "Trusted: as C04; the escape reader is identified structurally (switch with cases for 'u' and 'n').",
  "static analysis: per-byte abstract interpretation of the writer vs the parser's escape case table; table-identity check; guard/dereference consistency lint",
  "DESIGN.md §4 C14")
 claim("C15",
- "Static decision of structural clauses of 'all encoders agree on a Go value': no per-field decision leaks between fields of a struct-field loop (K-loop), the three field-plan builders of each encoder patch the same plan fields when promoting embedded structs (K-embed, sibling feature vectors), every float formatting call uses the bit size of the value's type (K-floatbits, type-driven), and the plain and omit-empty plan caches are filled in exclusive branches (K-cache). The encoded tree itself and encoding/json parity are not decided.",
+ "Static decision of structural clauses of 'all encoders agree on a Go value': no per-field decision leaks between fields of a struct-field loop (K-loop), the three field-plan builders of each encoder patch the same plan fields when promoting embedded structs (K-embed, sibling feature vectors), every float formatting call uses the bit size of the value's type (K-floatbits, type-driven), and the plain and omit-empty plan caches are filled in exclusive branches (K-cache). The encoded tree itself and encoding/json parity are not decided. K-embed compares field, assignment operator and value of every patch applied to promoted fields; entry parity of the two Writer types (a reused writer that keeps the previous stream splits the text).",
  "Trusted: go/types; K-embed compares siblings with each other (majority of three per package), so a slip copied into all three is invisible to it.",
  "static analysis: loop-carried assignment lint, sibling feature-vector comparison, type-driven argument check, branch-exclusivity check",
  "DESIGN.md §4 C15")
 claim("C16",
- "Static decision of the history-independence clause and of structural necessary conditions of the inverse property: registry lookups under keys derived from reflect.Type.Name() verify the composer's type, nothing is registered under an empty name, loops over struct fields visit every index, the per-element target of the recursive recompose call is fresh in each iteration, float64 values are formatted with 64 bits. Inverse-ness of Decompose/Recompose and Marshal/Unmarshal for arbitrary types is not decidable statically and is not claimed.",
+ "Static decision of the history-independence clause and of structural necessary conditions of the inverse property: registry lookups under keys derived from reflect.Type.Name() verify the composer's type, nothing is registered under an empty name, loops over struct fields visit every index, the per-element target of the recursive recompose call is fresh in each iteration, float64 values are formatted with 64 bits. Inverse-ness of Decompose/Recompose and Marshal/Unmarshal for arbitrary types is not decidable statically and is not claimed. Also K-embed (Marshal reads promoted fields through the plan's offsets), R-prereg (no lazy registration) and A-appendretain in alt.",
  "Trusted: go/types; the lossy-key rule is specific to package alt's map[string]*composer registries.",
  "static analysis: def-use tracking of lossy keys with required identity comparison; loop-bound and loop-freshness lints; type-driven argument check",
  "DESIGN.md §4 C16")
 claim("C19",
- "Static decision of structural clauses of Diff/Compare/Match: one shared implementation whose early exits only follow a recorded difference (Compare nil iff Diff empty), both operands' keys reach the comparison in the map case, a length difference is recorded in the slice case, ignore tests precede recording, numeric widening helpers convert directly, Match never compares object sizes. Soundness/completeness of the reported paths and ignore-path semantics are not decided.",
+ "Static decision of structural clauses of Diff/Compare/Match: one shared implementation whose early exits only follow a recorded difference (Compare nil iff Diff empty), both operands' keys reach the comparison in the map case, a length difference is recorded in the slice case, ignore tests precede recording, numeric widening helpers convert directly, Match never compares object sizes. Soundness/completeness of the reported paths and ignore-path semantics are not decided. F-okdrop: the success flag of a conversion helper is discarded only for the subject of an enclosing type switch.",
  "Trusted: go/types; the rules are specific to the shape of alt/diff.go (located through the public functions Diff, Compare, Match).",
  "static analysis: control-dependence of early returns on recorded differences, dataflow of key sets, conversion-chain lint",
  "DESIGN.md §4 C19")
 claim("C05",
- "Static decision of sibling clauses of Expr.Get: the cells (fragment kind x container type, located through the type switches) are reduced to an index-selection fingerprint and the copies for []any, gen.Array and Indexed (map, gen.Object, Keyed) must keep the fingerprint they share in the frozen sibling table; loop-carried found-flags must be assigned in every iteration before they are tested; multi-valued operands are enumerated as a mixed-radix number. That the shared skeleton is the documented semantics is not decided (no oracle without executing).",
+ "Static decision of sibling clauses of Expr.Get: the cells (fragment kind x container type, located through the type switches) are reduced to an index-selection fingerprint and the copies for []any, gen.Array and Indexed (map, gen.Object, Keyed) must keep the fingerprint they share in the frozen sibling table; loop-carried found-flags must be assigned in every iteration before they are tested; multi-valued operands are enumerated as a mixed-radix number. That the shared skeleton is the documented semantics is not decided (no oracle without executing). Two zero-count lints with positive-control fixtures: no append(B, ...) retained in a loop while B is reused (A-appendretain), no member presence decided by comparing a one-result map lookup with nil (M-presence).",
  "Trusted: the sibling table checker/jp_siblings.txt was generated from the pinned tree (classes of >=2 cells with equal fingerprints) - a slip present in every copy is invisible; a behaviour-preserving rewrite of a single copy would be reported.",
  "static analysis: clone-cell extraction via type switches, normalised index-arithmetic fingerprints, sibling class comparison; definite-assignment lint for loop-carried flags",
  "DESIGN.md §3 Engine B, §4 C05")
 claim("C11",
- "Static decision of sibling clauses across evaluators and representations: Get, FirstFound, Has, GetNodes and FirstNode cells keep the index-selection fingerprints they share across containers and across the evaluators written as copies of each other (Has/FirstFound, Get/GetNodes, FirstFound/FirstNode); found-flags in Locate/Walk style loops are assigned per iteration. Correctness of the shared skeleton, reflection lookup and normalised path content are not decided.",
+ "Static decision of sibling clauses across evaluators and representations: Get, FirstFound, Has, GetNodes and FirstNode cells keep the index-selection fingerprints they share across containers and across the evaluators written as copies of each other (Has/FirstFound, Get/GetNodes, FirstFound/FirstNode); found-flags in Locate/Walk style loops are assigned per iteration. Correctness of the shared skeleton, reflection lookup and normalised path content are not decided. Also A-appendretain and M-presence (see C05).",
  "Trusted: as C05.",
  "static analysis: sibling class comparison of normalised index-arithmetic fingerprints across evaluators; definite-assignment lint",
  "DESIGN.md §3 Engine B, §4 C11")
 claim("C13",
- "Static decision of sibling clauses of the mutators: set and modify cells keep the index-selection fingerprints (bounds normalisation, guards, loop bounds, the labelled break that stops the *One forms) they share across []any, gen.Array and Indexed / map, gen.Object, Keyed. The frame condition on untouched data and the structure Set creates are not decided. Known by reading, not reported by a rule: modify/remove treat the slice end bound as inclusive (pinned by jp/remove_test.go).",
+ "Static decision of sibling clauses of the mutators: set and modify cells keep the index-selection fingerprints (bounds normalisation, guards, loop bounds, the labelled break that stops the *One forms) they share across []any, gen.Array and Indexed / map, gen.Object, Keyed. The frame condition on untouched data and the structure Set creates are not decided. Known by reading, not reported by a rule: modify/remove treat the slice end bound as inclusive (pinned by jp/remove_test.go). Also A-appendretain and M-presence (see C05).",
  "Trusted: as C05.",
  "static analysis: sibling class comparison of normalised index-arithmetic fingerprints of the mutator cells",
  "DESIGN.md §3 Engine B, §4 C13")
 claim("C17",
- "Static decision of the bookkeeping pairing of the streaming matcher: leaf events funnel into one helper with their own value, index increment exactly once per leaf and per container end, exactly one path push per container start and one pop per end, existential target selection, no found-flag shared between fragment arms, and token events of oj.Tokenizer in agreement with the reference at every byte (so a value cannot change on a slow path). PathMatch versus evaluator semantics, order and delivered values are not decided.",
+ "Static decision of the bookkeeping pairing of the streaming matcher: leaf events funnel into one helper with their own value, index increment exactly once per leaf and per container end, exactly one path push per container start and one pop per end, existential target selection, no found-flag shared between fragment arms, and token events of oj.Tokenizer in agreement with the reference at every byte (so a value cannot change on a slow path). PathMatch versus evaluator semantics, order and delivered values are not decided. A key or string assembled after a consumed scratch buffer was not truncated (stale-scratch) is reported here too: the member would not be matched.",
  "Trusted: as C01 for the event part; the pairing rules are specific to jp.MatchHandler (located through its public TokenHandler method names).",
  "static analysis: call-count / dominance rules on the handler's helpers, existential-loop lint, scope lint, product event synchrony for the tokenizer",
  "DESIGN.md §4 C17")
